@@ -160,6 +160,10 @@ func (g *Gen) Setup() error {
 	minHr, maxHrs := bound()
 	minSubGB := 1 + g.R.Int63n(3)
 	maxSubGB := minSubGB + g.R.Int63n(20)
+	if g.Profile == "extreme" && g.chance(0.5) {
+		// purchases whose byte count (gigabytes x 10^9) leaves the machine-word range
+		maxSubGB = []int64{9223372036, 9223372037, 18446744074, 9223372036854775807}[g.pick(4)]
+	}
 	minSubHr := 1 + g.R.Int63n(3)
 	maxSubHr := minSubHr + g.R.Int63n(10)
 	dep := func() string {
@@ -680,6 +684,12 @@ func (g *Gen) Tx(v *view) error {
 		np := s.App.VPNKeeper.Node.GetParams(ctx)
 		if g.chance(0.5) {
 			gb = np.MinSubscriptionGigabytes + g.R.Int63n(np.MaxSubscriptionGigabytes-np.MinSubscriptionGigabytes+1)
+			if np.MaxSubscriptionGigabytes > 1000000 {
+				gb = np.MinSubscriptionGigabytes + g.R.Int63n(20)
+				if g.chance(0.5) {
+					gb = min64(np.MaxSubscriptionGigabytes, []int64{9223372036, 9223372037, 18446744073, 18446744074, 9223372036854775807}[g.pick(5)])
+				}
+			}
 			if g.chance(0.1) {
 				gb = []int64{0, np.MinSubscriptionGigabytes - 1, np.MaxSubscriptionGigabytes + 1, -1, np.MaxSubscriptionGigabytes}[g.pick(5)]
 			}
@@ -1162,6 +1172,9 @@ func (g *Gen) GovOp() error {
 		lo := 1 + g.R.Int63n(3)
 		if g.chance(0.5) {
 			return g.line("gov space=node key=MinSubscriptionGigabytes int=%d", min64(lo, np.MaxSubscriptionGigabytes))
+		}
+		if g.Profile == "extreme" && g.chance(0.4) {
+			return g.line("gov space=node key=MaxSubscriptionGigabytes int=%d", []int64{9223372036, 9223372037, 18446744074, 9223372036854775807}[g.pick(4)])
 		}
 		return g.line("gov space=node key=MaxSubscriptionGigabytes int=%d", max64(np.MinSubscriptionGigabytes, lo+g.R.Int63n(30)))
 	case 13:
